@@ -6,13 +6,14 @@ From LR Require Import lib.Base lib.Seg model.LineReader model.Scanner proofs.Li
 Local Arguments seg : simpl never.
 
 Section ScP.
-Variable lp : bool.   (* the reader: every lemma up to the read-offs about sleeps holds for both *)
+Variable vr : variant.   (* the invariant holds for every variant; the read-offs about sleeps, the drain and
+                            the stored prefix name the variant they need *)
 Variable B : nat.
 Variable rpe : nat.
 Hypothesis Bpos : 0 < B.
 
-Notation step := (step lp B rpe).
-Notation run := (run lp B rpe).
+Notation step := (step vr B rpe).
+Notation run := (run vr B rpe).
 
 (* ---------- run ---------- *)
 Lemma run_app s a b :
@@ -54,6 +55,7 @@ Qed.
 Definition phase_inv (s : st) (m : marks) : Prop :=
   match ph s with
   | PRead => t_hpos m = woff s /\ t_conf m = woff s
+  | PSleep => t_hpos m = woff s /\ t_conf m = woff s /\ recs s = []
   | PSend _ => t_hpos m = woff s /\ t_conf m = woff s /\ recs s <> []
   | PWait _ => t_hpos m = ppos s /\ t_conf m = woff s
   | PConf _ => t_hpos m = ppos s /\ t_conf m = ppos s /\ In (ppos s) (t_ends m)
@@ -69,6 +71,7 @@ Record Inv (s : st) (tr : list obs) : Prop := {
   i_off : woff s + length (concat (recs s)) = ppos s;
   i_recs : concat (recs s) = seg (wfile s) (woff s) (length (concat (recs s)));
   i_good : Forall (good_rec B) (recs s);
+  i_ue : ue_read s = true -> until_eof s = true;
   (* a file that only grows: one identity, the worker reads the file at the path, its descriptor is the map's *)
   i_wf : wfile s = file s;
   i_ws : wsame s = true;
@@ -90,11 +93,12 @@ Record Inv (s : st) (tr : list obs) : Prop := {
 
 Lemma inv_start s : start_state s -> Inv s [].
 Proof.
-  intros (H1 & H2 & H3 & H4 & H5 & H6 & H7 & H8 & H9 & H10 & H11 & H12 & H13).
+  intros (H1 & H2 & H3 & H4 & H5 & H6 & H7 & H8 & H9 & H10 & H11 & H12 & H13 & H14).
   constructor; rewrite ?H2, ?H3, ?H4, ?H5, ?H6, ?H13; cbn; try reflexivity; try lia; try tauto; try discriminate; try assumption;
     try (constructor; fail); try (split; reflexivity).
   all: try (unfold phase_inv; rewrite H1; cbn; rewrite H4; split; reflexivity).
   all: try apply all_splits_nil.
+  all: try (rewrite H14; discriminate).
 Qed.
 
 Lemma start_init content : start_state (init content).
@@ -131,7 +135,7 @@ Qed.
 
 Lemma inv_done s tr : Inv s tr -> conf_of tr = woff s -> Inv (set_ph s PDone) tr.
 Proof.
-  intros I C. destruct I. constructor; cbn; try assumption.
+  intros I C. destruct I. constructor; cbn; try assumption; try (intros UE0; exact UE0).
 Qed.
 
 Lemma seg_skip_all (l : bytes) a : skipn a l = seg l a (length (skipn a l)).
@@ -140,18 +144,20 @@ Proof. apply seg_all. Qed.
 Ltac fin := try assumption; try reflexivity; try lia; try (constructor; fail).
 
 (* EOF without a delimiter: what was left of the file joins the reader's partial line *)
-Lemma inv_keep s tr n b' : Inv s tr -> ph s = PRead ->
+Lemma inv_keep s tr n b' p' : Inv s tr -> ph s = PRead ->
   b' = buf s ++ skipn (rpos s) (wfile s) -> n = length (skipn (rpos s) (wfile s)) ->
   ~ In nl (skipn (rpos s) (wfile s)) ->
-  Inv (upd_read s (rpos s + n) b' (ppos s) (recs s) PRead) tr.
+  p' = PRead \/ (p' = PSleep /\ recs s = []) \/ (p' = PSend true /\ recs s <> []) ->
+  Inv (upd_read s (rpos s + n) b' (ppos s) (recs s) p') tr.
 Proof.
-  intros I P S1 S2 S3. destruct I.
+  intros I P S1 S2 S3 PP. destruct I.
   assert (UL : length (skipn (rpos s) (wfile s)) = length (wfile s) - rpos s) by apply skipn_length.
   assert (LB : length b' = length (buf s) + n) by (rewrite S1, app_length, S2; reflexivity).
-  constructor; cbn; try assumption; try lia.
+  constructor; cbn; try assumption; try (intros UE0; exact UE0); try lia.
   - rewrite LB, <- seg_app, <- i_buf0, <- i_rp0. rewrite S1. f_equal. rewrite S2. apply seg_all.
   - rewrite S1. intros F. apply in_app_or in F. tauto.
-  - unfold phase_inv in *. cbn. rewrite P in i_ph0. exact i_ph0.
+  - unfold phase_inv in *. cbn. rewrite P in i_ph0. destruct i_ph0 as [A1 A2].
+    destruct PP as [->|[[-> RC]|[-> RC]]]; repeat split; assumption.
 Qed.
 
 Lemma inv_step s tr e : Inv s tr -> (forall b c, e <> EReplace b c) ->
@@ -161,7 +167,7 @@ Proof.
   destruct e; cbn [step].
   - (* EAppend *)
     cbn [fst snd]. rewrite app_nil_r. rewrite i_ws0.
-    constructor; cbn; try assumption; rewrite ?app_length; try lia.
+    constructor; cbn; try assumption; try (intros UE0; exact UE0); rewrite ?app_length; try lia.
     + apply seg_mono. exact i_buf0.
     + apply seg_mono. exact i_recs0.
     + rewrite i_wf0. reflexivity.
@@ -170,7 +176,7 @@ Proof.
     + eapply all_splits_impl; [|exact i_obs0]. intros t o. apply good_mono.
   - (* ERead *)
     destruct (ph s) eqn:P; cbn [fst snd]; try (rewrite app_nil_r; exact I0).
-    destruct (read_line_turn lp B (buf s) (skipn (rpos s) (wfile s))) as [n r] eqn:R.
+    destruct (read_line_turn (v_loops vr) B (buf s) (skipn (rpos s) (wfile s))) as [n r] eqn:R.
     assert (UL : length (skipn (rpos s) (wfile s)) = length (wfile s) - rpos s) by apply skipn_length.
     destruct r as [line|b'|b'].
     + (* a record *)
@@ -184,32 +190,33 @@ Proof.
                 phase_inv (upd_read s (rpos s + n) [] (ppos s + length line) (recs s ++ [line]) p') (marks_of tr)).
       { intros p' [->|[b ->]]; unfold phase_inv in *; cbn; rewrite P in i_ph0; destruct i_ph0 as [A1 A2];
           repeat split; try assumption. destruct (recs s); discriminate. }
-      constructor; cbn; try assumption; rewrite ?concat_app, ?app_length; cbn; rewrite ?app_nil_r; try lia.
+      constructor; cbn; try assumption; try (intros UE0; exact UE0); rewrite ?concat_app, ?app_length; cbn; rewrite ?app_nil_r; try lia.
       * reflexivity.
       * rewrite i_recs0 at 1. rewrite SEG at 1. rewrite <- i_off0. apply seg_app.
       * apply Forall_app. split; [exact i_good0|]. constructor; [exact L4|constructor].
       * apply PI. destruct (_ =? rpe); [right; eexists; reflexivity|left; reflexivity].
     + (* (nil, io.EOF) *)
       destruct (read_line_turn_eof _ _ _ _ _ _ R) as (S1 & S2 & S3 & _).
-      pose proof (inv_keep s tr n b' I0 P S1 S2 S3) as I1.
-      destruct (recs s) eqn:RC.
-      * destruct (until_eof s); cbn [fst snd].
-        -- replace (tr ++ [OSleep false; OExit]) with ((tr ++ [OSleep false]) ++ [OExit]) by (rewrite <- app_assoc; reflexivity).
-           apply inv_neutral; [|reflexivity|exact Logic.I]. apply inv_done.
-           ++ apply inv_neutral; [exact I1|reflexivity|exact Logic.I].
-           ++ unfold conf_of. rewrite marks_snoc. cbn. unfold phase_inv in i_ph0. rewrite P in i_ph0. tauto.
-        -- apply inv_neutral; [exact I1|reflexivity|exact Logic.I].
-      * cbn [fst snd]. rewrite app_nil_r. destruct I1. constructor; cbn in *; try assumption.
-        unfold phase_inv in *. cbn in *. repeat split; try tauto. discriminate.
+      destruct (recs s) eqn:RC; cbn [fst snd].
+      * apply inv_neutral; [|reflexivity|exact Logic.I].
+        pose proof (inv_keep s tr n b' PSleep I0 P S1 S2 S3) as I1. rewrite RC in I1. apply I1. right. left. split; reflexivity.
+      * rewrite app_nil_r.
+        pose proof (inv_keep s tr n b' (PSend true) I0 P S1 S2 S3) as I1. rewrite RC in I1. apply I1. right. right. split; [reflexivity|discriminate].
     + (* EOF inside a line, the reader that loops *)
       destruct (read_line_turn_sleep _ _ _ _ _ _ R) as (S1 & S2 & S3 & _).
       cbn [fst snd]. apply inv_neutral; [|reflexivity|exact Logic.I].
-      exact (inv_keep s tr n b' I0 P S1 S2 S3).
+      apply (inv_keep s tr n b' PRead I0 P S1 S2 S3). left. reflexivity.
+  - (* EWake *)
+    destruct (ph s) eqn:P; cbn [fst snd]; try (rewrite app_nil_r; exact I0).
+    unfold phase_inv in i_ph0. rewrite P in i_ph0. destruct i_ph0 as (A1 & A2 & A3).
+    destruct (exit_check vr s); cbn [fst snd].
+    + apply inv_neutral; [|reflexivity|exact Logic.I]. apply inv_done; [exact I0|exact A2].
+    + rewrite app_nil_r. constructor; cbn; try assumption; try (intros UE0; exact UE0). unfold phase_inv. cbn. split; assumption.
   - (* ETake *)
     destruct (ph s) eqn:P; cbn [fst snd]; try (rewrite app_nil_r; exact I0).
     unfold phase_inv in i_ph0. rewrite P in i_ph0. destruct i_ph0 as (A1 & A2 & A3).
     destruct i_acc0 as [C1 C2]. destruct i_ends0 as [E1 E2].
-    constructor; cbn; try assumption; unfold hpos_of, conf_of, ends_of, pers_of in *; rewrite ?marks_snoc; cbn; try assumption; try lia.
+    constructor; cbn; try assumption; try (intros UE0; exact UE0); unfold hpos_of, conf_of, ends_of, pers_of in *; rewrite ?marks_snoc; cbn; try assumption; try lia.
     + tauto.
     + rewrite app_length. split; [lia|].
       rewrite C2 at 1. rewrite i_recs0 at 1. rewrite i_wf0. replace (woff s) with (t_base (marks_of tr) + length (t_acc (marks_of tr))) by lia.
@@ -221,22 +228,22 @@ Proof.
       try (apply inv_neutral; [exact I0|reflexivity|exact Logic.I]).
     unfold phase_inv in i_ph0. rewrite P in i_ph0. destruct i_ph0 as (A1 & A2).
     destruct i_ends0 as [E1 E2].
-    constructor; cbn; try assumption; unfold hpos_of, conf_of, ends_of, pers_of in *; rewrite ?marks_snoc; cbn; try assumption; try lia.
+    constructor; cbn; try assumption; try (intros UE0; exact UE0); unfold hpos_of, conf_of, ends_of, pers_of in *; rewrite ?marks_snoc; cbn; try assumption; try lia.
     + split; [right; exact E1|lia].
     + apply all_splits_snoc; [assumption|exact Logic.I].
   - (* ESetOff *)
     destruct (ph s) eqn:P; cbn [fst snd]; try (rewrite app_nil_r; exact I0).
     unfold phase_inv in i_ph0. rewrite P in i_ph0. destruct i_ph0 as (A1 & A2 & A3).
     rewrite i_att0.
-    assert (MK : marks_of (tr ++ OOffset (ppos s) :: (if eof && until_eof s then [OExit] else [])) = marks_of tr).
-    { rewrite marks_app. destruct (eof && until_eof s); reflexivity. }
-    constructor; cbn; try assumption; unfold hpos_of, conf_of, ends_of, pers_of in *; rewrite ?MK; fin.
+    assert (MK : marks_of (tr ++ OOffset (ppos s) :: (if eof && exit_check vr s then [OExit] else [])) = marks_of tr).
+    { rewrite marks_app. destruct (eof && exit_check vr s); reflexivity. }
+    constructor; cbn; try assumption; try (intros UE0; exact UE0); unfold hpos_of, conf_of, ends_of, pers_of in *; rewrite ?MK; fin.
     + split; [exact A3|lia].
-    + unfold phase_inv. cbn. destruct (eof && until_eof s); [exact A2|]. split; assumption.
+    + unfold phase_inv. cbn. destruct (eof && exit_check vr s); [exact A2|]. split; assumption.
     + apply all_splits_app; [assumption|]. intros t1 o t2 Eq.
       destruct t1 as [|x t1].
       * cbn in Eq. injection Eq as <- _. cbn. rewrite app_nil_r. unfold conf_of. symmetry. exact A2.
-      * cbn in Eq. injection Eq as _ Eq. destruct (eof && until_eof s); [|destruct t1; discriminate].
+      * cbn in Eq. injection Eq as _ Eq. destruct (eof && exit_check vr s); [|destruct t1; discriminate].
         destruct t1 as [|y t1]; [injection Eq as <- _; exact Logic.I|destruct t1; discriminate].
   - (* EPersist *)
     cbn [fst snd]. destruct i_ends0 as [E1 E2].
@@ -246,7 +253,7 @@ Proof.
     + split; assumption.
     + apply all_splits_snoc; [assumption|]. cbn. rewrite i_doff0. split; assumption.
   - (* EStop *)
-    cbn [fst snd]. rewrite app_nil_r. constructor; cbn; try assumption.
+    cbn [fst snd]. rewrite app_nil_r. constructor; cbn; try assumption; try (intros UE0; exact UE0).
   - (* EExit *)
     destruct (stopping s); cbn [fst snd]; [|rewrite app_nil_r; exact I0].
     destruct (ph s) eqn:P; cbn [fst snd]; try (rewrite app_nil_r; exact I0);
@@ -283,6 +290,26 @@ Proof.
     all: try (unfold phase_inv in *; cbn; rewrite P in *; assumption).
     apply (inv_fresh s tr (mkDesc (fid s) (d_off (dsc s)) (length (file s))) (woff s) (OFresh (d_off (dsc s))) I0); cbn; rewrite ?i_doff0; fin;
       try (split; assumption).
+  - (* EStopOnEof *)
+    cbn [fst snd]. rewrite app_nil_r. constructor; cbn; try assumption; try (intros UE0; exact UE0); try reflexivity.
+  - (* ECollect *)
+    destruct (ph s) eqn:P; cbn [fst snd]; try (rewrite app_nil_r; exact I0).
+    assert (CF : forall o1, (forall m, t_step m o1 = m) -> good (file s) tr o1 ->
+                 Inv (set_ph s (PConf eof)) ((tr ++ [o1]) ++ [OConf true])).
+    { intros o1 N1 G1. pose proof (inv_neutral s tr o1 I0 N1 G1) as I1. clear I0. remember (tr ++ [o1]) as tr1. clear Heqtr1. destruct I1.
+      unfold phase_inv in i_ph1. rewrite P in i_ph1. destruct i_ph1 as (A1 & A2). destruct i_ends1 as [E1 E2].
+      constructor; cbn; try assumption; try (intros UE0; exact UE0); unfold hpos_of, conf_of, ends_of, pers_of in *; rewrite ?marks_snoc; cbn; try assumption; try lia.
+      + split; [right; exact E1|lia].
+      + apply all_splits_snoc; [assumption|exact Logic.I]. }
+    assert (NF : forall o1, (forall m, t_step m o1 = m) -> good (file s) tr o1 -> Inv s (tr ++ [o1])).
+    { intros o1 N1 G1. exact (inv_neutral s tr o1 I0 N1 G1). }
+    destruct w; [| |destruct (v_conf_srv vr)]; cbn [fst snd].
+    + replace (tr ++ [OWrite true; OConf true]) with ((tr ++ [OWrite true]) ++ [OConf true]) by (rewrite <- app_assoc; reflexivity).
+      apply CF; [reflexivity|exact Logic.I].
+    + apply NF; [reflexivity|exact Logic.I].
+    + replace (tr ++ [OWrite false; OConf true]) with ((tr ++ [OWrite false]) ++ [OConf true]) by (rewrite <- app_assoc; reflexivity).
+      apply CF; [reflexivity|exact Logic.I].
+    + apply NF; [reflexivity|exact Logic.I].
 Qed.
 
 Lemma inv_run s tr evs : Inv s tr -> no_replace evs -> Inv (fst (run s evs)) (tr ++ snd (run s evs)).
@@ -353,12 +380,12 @@ Proof.
 Qed.
 
 (* the reader of the code never sleeps inside readLine: every sleep of the worker is the one in sendOrSleep *)
-Lemma sleep_kind s p o : lp = false -> snd (step s ERead) = OSleep p :: o -> p = false.
+Lemma sleep_kind s p o : v_loops vr = false -> snd (step s ERead) = OSleep p :: o -> p = false.
 Proof.
   intros L H. cbn [step] in H. destruct (ph s); try discriminate.
-  destruct (read_line_turn lp B (buf s) (skipn (rpos s) (wfile s))) as [n r] eqn:R.
+  destruct (read_line_turn (v_loops vr) B (buf s) (skipn (rpos s) (wfile s))) as [n r] eqn:R.
   destruct r as [line|b'|b']; cbn in H; try discriminate.
-  - destruct (recs s); [destruct (until_eof s)|]; cbn in H; try discriminate; injection H as <- _; reflexivity.
+  - destruct (recs s); cbn in H; try discriminate; injection H as <- _; reflexivity.
   - destruct (read_line_turn_sleep _ _ _ _ _ _ R) as (_ & _ & _ & _ & T). congruence.
 Qed.
 
@@ -376,11 +403,11 @@ Proof.
   pose proof (i_ph _ _ I) as J. unfold phase_inv in J. rewrite P in J. destruct J as [A1 A2].
   pose proof (i_wf _ _ I) as WF. pose proof (i_rle _ _ I) as RLE.
   subst s'. cbn [step] in *. rewrite P in *.
-  destruct (read_line_turn lp B (buf s) (skipn (rpos s) (wfile s))) as [n r] eqn:R.
+  destruct (read_line_turn (v_loops vr) B (buf s) (skipn (rpos s) (wfile s))) as [n r] eqn:R.
   destruct r as [line|b'|b']; cbn in H; try discriminate.
   destruct (read_line_turn_eof _ _ _ _ _ _ R) as (S1 & S2 & S3 & _).
-  pose proof (inv_keep s (trc evs) n b' I P S1 S2 S3) as I1.
   destruct (recs s) eqn:RC; [|discriminate].
+  pose proof (inv_keep s (trc evs) n b' PSleep I P S1 S2 S3 (or_intror (or_introl (conj eq_refl RC)))) as I1. rewrite RC in I1.
   assert (RL : rpos s + n = length (file s)).
   { rewrite S2, skipn_length. rewrite WF in *. lia. }
   destruct I1. cbn in *. cbn in *. rewrite WF in *.
@@ -390,7 +417,7 @@ Proof.
     rewrite Nat.add_0_r in E. rewrite <- i_buf0, <- seg_nil in E.
     rewrite skipn_all2 in E by lia. rewrite app_nil_r in E. rewrite WP. exact E. }
   unfold hpos_of, conf_of. rewrite A1, A2.
-  destruct (until_eof s); cbn; repeat split; try assumption; try lia.
+  cbn; repeat split; try assumption; try lia.
 Qed.
 
 (* ... so if the file is empty or ends in '\n', the whole file has been handed over and confirmed *)
@@ -403,8 +430,8 @@ Qed.
 Lemma step_read_file s : file (fst (step s ERead)) = file s.
 Proof.
   cbn [step]. destruct (ph s); try reflexivity.
-  destruct (read_line_turn lp B (buf s) (skipn (rpos s) (wfile s))) as [n r]. destruct r; try reflexivity.
-  destruct (recs s); [destruct (until_eof s)|]; reflexivity.
+  destruct (read_line_turn (v_loops vr) B (buf s) (skipn (rpos s) (wfile s))) as [n r]. destruct r; try reflexivity.
+  destruct (recs s); reflexivity.
 Qed.
 
 Lemma idle_complete evs o : no_replace evs -> let s := fin evs in
@@ -435,6 +462,247 @@ Proof.
   cbn [run step]. cbn [persisted fid file].
   rewrite (merge_kept (dsc s) (fid s) (length (file s)) i_did0 i_lss0 OL). cbn.
   subst c. rewrite C, i_doff0. split; reflexivity.
+Qed.
+
+(* ---------- a worker told to stop at EOF drains its file ---------- *)
+Definition eof_phase (s : st) : bool :=
+  match ph s with PSleep | PSend true | PWait true | PConf true => true | _ => false end.
+
+(* F0: the file as it was when the worker was told *)
+Record DInv (F0 : bytes) (s : st) : Prop := {
+  d_ue : until_eof s = true;
+  d_pre : firstn (length F0) (file s) = F0;
+  d_len : length F0 <= length (file s);
+  d_eof : eof_phase s = true -> ue_read s = true -> length F0 <= rpos s;
+  d_done : ph s = PDone -> stopping s = false -> length F0 <= rpos s /\ recs s = []
+}.
+
+Lemma dinv_step F0 s tr e : v_stale vr = false -> Inv s tr -> DInv F0 s ->
+  (forall b c, e <> EReplace b c) -> e <> ERestart -> e <> ESync ->
+  DInv F0 (fst (step s e)).
+Proof.
+  intros VS I D N1 N2 N3. pose proof D as D0. destruct D as [D1 D2 D3 D4 D5].
+  pose proof (i_wf _ _ I) as WF. pose proof (i_rle _ _ I) as RLE. pose proof (i_ph _ _ I) as PH.
+  unfold eof_phase in *.
+  destruct e; cbn [step]; try congruence.
+  - (* EAppend *)
+    cbn [fst]. constructor; cbn; try assumption.
+    + rewrite firstn_app. replace (length F0 - length (file s)) with 0 by lia. cbn. rewrite app_nil_r. exact D2.
+    + rewrite app_length. lia.
+  - (* ERead *)
+    destruct (ph s) eqn:P; cbn [fst]; try exact D0.
+    destruct (read_line_turn (v_loops vr) B (buf s) (skipn (rpos s) (wfile s))) as [n r] eqn:R.
+    destruct r as [line|b'|b']; cbn [fst].
+    + constructor; cbn; try assumption.
+      * destruct (_ =? rpe); discriminate.
+      * destruct (_ =? rpe); discriminate.
+    + destruct (read_line_turn_eof _ _ _ _ _ _ R) as (_ & S2 & _ & _).
+      assert (RL : length F0 <= rpos s + n).
+      { rewrite S2, skipn_length. rewrite WF in *. lia. }
+      destruct (recs s); cbn [fst]; constructor; cbn; try assumption; try discriminate; intros; exact RL.
+    + constructor; cbn; try assumption; discriminate.
+  - (* EWake *)
+    destruct (ph s) eqn:P; cbn [fst]; try exact D0.
+    unfold exit_check. rewrite VS. unfold phase_inv in PH. rewrite P in PH. destruct PH as (_ & _ & RC).
+    destruct (ue_read s) eqn:U; cbn [fst]; constructor; cbn; try assumption; try discriminate.
+    intros _ _. split; [apply D4; reflexivity|exact RC].
+  - (* ETake *)
+    destruct (ph s) eqn:P; cbn [fst]; try exact D0.
+    constructor; cbn; try assumption; try discriminate.
+  - (* EConfirm *)
+    destruct (ph s) eqn:P; cbn [fst]; try exact D0.
+    constructor; cbn; try assumption; try discriminate.
+  - (* ESetOff *)
+    destruct (ph s) eqn:P; cbn [fst]; try exact D0.
+    unfold exit_check. rewrite VS.
+    destruct eof; cbn [andb]; [destruct (ue_read s) eqn:U|]; constructor; cbn; try assumption; try discriminate.
+    intros _ _. split; [apply D4; reflexivity|reflexivity].
+  - (* EPersist *)
+    cbn [fst]. constructor; cbn; assumption.
+  - (* EStop *)
+    cbn [fst]. constructor; cbn; try assumption. discriminate.
+  - (* EExit *)
+    destruct (stopping s) eqn:ST; cbn [fst]; [|exact D0].
+    destruct (ph s) eqn:P; cbn [fst]; try exact D0;
+      (constructor; cbn; try assumption; try discriminate; rewrite ST; discriminate).
+  - (* EStopOnEof *)
+    cbn [fst]. constructor; cbn; try assumption. reflexivity.
+  - (* ECollect *)
+    destruct (ph s) eqn:P; cbn [fst]; try exact D0.
+    destruct w; [| |destruct (v_conf_srv vr)]; cbn [fst]; try exact D0;
+      (constructor; cbn; try assumption; try discriminate).
+Qed.
+
+Lemma dinv_run F0 s tr evs : v_stale vr = false -> Inv s tr -> DInv F0 s -> no_replace evs -> same_worker evs ->
+  DInv F0 (fst (run s evs)).
+Proof.
+  intros VS. revert s tr. induction evs as [|e evs IH]; intros s tr I D NR [W1 W2]; cbn; [exact D|].
+  assert (N1 : forall b c, e <> EReplace b c) by (intros b c E; apply (NR b c); left; exact E).
+  assert (N2 : no_replace evs) by (intros b c F; apply (NR b c); right; exact F).
+  assert (N3 : e <> ERestart) by (intros E; apply W1; left; exact E).
+  assert (N4 : e <> ESync) by (intros E; apply W2; left; exact E).
+  pose proof (inv_step s tr e I N1) as I1. pose proof (dinv_step F0 s tr e VS I D N1 N3 N4) as D1.
+  destruct (step s e) as [s1 o1]. cbn [fst snd] in *.
+  assert (SW : same_worker evs) by (split; intros F; [apply W1|apply W2]; right; exact F).
+  pose proof (IH s1 (tr ++ o1) I1 D1 N2 SW) as D2. destruct (run s1 evs) as [s2 o2]. exact D2.
+Qed.
+
+Lemma in_firstn (k : nat) (x : byte) (l : bytes) : In x (firstn k l) -> In x l.
+Proof. intros H. rewrite <- (firstn_skipn k l). apply in_or_app. left. exact H. Qed.
+
+(* a running worker that is told to stop at EOF and later returns on its own (not because the collector is
+   stopped) has handed over, and got confirmed, every complete line the file held when it was told *)
+Lemma drain evs1 evs2 : v_stale vr = false -> no_replace evs1 -> no_replace evs2 -> same_worker evs2 ->
+  let s1 := fin evs1 in until_eof s1 = false -> ph s1 <> PDone ->
+  let evs := evs1 ++ EStopOnEof :: evs2 in
+  ph (fin evs) = PDone -> stopping (fin evs) = false ->
+  ~ In nl (skipn (conf_of (trc evs)) (file s1)) /\ firstn (length (file s1)) (file (fin evs)) = file s1.
+Proof.
+  intros VS NR1 NR2 SW s1 U1 P1 evs PD ST.
+  assert (NR : no_replace evs).
+  { intros b c F. apply in_app_or in F as [F|[F|F]]; [exact (NR1 b c F)|discriminate|exact (NR2 b c F)]. }
+  pose proof (inv_all evs NR) as I.
+  pose proof (inv_all evs1 NR1) as I1. fold s1 in I1.
+  assert (NS : forall b c, EStopOnEof <> EReplace b c) by discriminate.
+  pose proof (inv_step s1 (trc evs1) EStopOnEof I1 NS) as I2.
+  assert (D0 : DInv (file s1) (fst (step s1 EStopOnEof))).
+  { constructor; cbn; try reflexivity.
+    - apply firstn_all.
+    - intros _ U. pose proof (i_ue _ _ I1 U). congruence.
+    - intros F. contradiction. }
+  pose proof (dinv_run (file s1) _ _ evs2 VS I2 D0 NR2 SW) as D.
+  assert (E : fin evs = fst (run (fst (step s1 EStopOnEof)) evs2)).
+  { unfold fin, evs. rewrite run_app. unfold s1, fin. destruct (run s0 evs1) as [sa oa]. cbn [run fst].
+    destruct (step sa EStopOnEof) as [sb ob]. cbn [fst]. destruct (run sb evs2). reflexivity. }
+  rewrite <- E in D. destruct D as [D1 D2 D3 D4 D5]. destruct (D5 PD ST) as [RL RC].
+  split; [|exact D2].
+  destruct I. unfold phase_inv in i_ph0. rewrite PD in i_ph0. unfold conf_of. rewrite i_ph0.
+  rewrite RC in i_off0. cbn in i_off0. rewrite Nat.add_0_r in i_off0. rewrite i_off0.
+  rewrite <- D2. rewrite skipn_firstn_comm. rewrite <- i_wf0.
+  intros F. apply i_bnl0. rewrite i_buf0. unfold seg.
+  assert (LE : length (file s1) - ppos (fin evs) <= length (buf (fin evs))) by lia.
+  replace (length (file s1) - ppos (fin evs)) with (Nat.min (length (file s1) - ppos (fin evs)) (length (buf (fin evs)))) in F by lia.
+  rewrite <- firstn_firstn in F. exact (in_firstn _ _ _ F).
+Qed.
+
+(* ---------- the collector as the consumer: what is confirmed has been stored by the server ---------- *)
+Lemma smarks_snoc tr o : smarks_of (tr ++ [o]) = s_step (smarks_of tr) o.
+Proof. unfold smarks_of. rewrite fold_left_app. reflexivity. Qed.
+
+Lemma smarks_m tr : s_m (smarks_of tr) = marks_of tr.
+Proof.
+  induction tr as [|x tr IH] using rev_ind; [reflexivity|]. rewrite smarks_snoc, marks_snoc, <- IH.
+  destruct x; try reflexivity. destruct stored; reflexivity.
+Qed.
+
+Definition is_wait (p : phase) : bool := match p with PWait _ => true | _ => false end.
+Definition SIt (tr : list obs) (w : bool) : Prop :=
+  conf_of tr <= stored_of tr /\ (w = true -> s_a (smarks_of tr) <= stored_of tr).
+Definition SI (s : st) (tr : list obs) : Prop := SIt tr (is_wait (ph s)).
+
+Definition neutral (o : obs) : Prop :=
+  match o with OHand _ | OConf true | OWrite true | ORestart _ | OFresh _ => False | _ => True end.
+
+Lemma sit_neutral tr w os : Forall neutral os -> SIt tr w -> SIt (tr ++ os) w.
+Proof.
+  intros F. revert tr. induction F as [|o os N F IH]; intros tr H; [rewrite app_nil_r; exact H|].
+  replace (tr ++ o :: os) with ((tr ++ [o]) ++ os) by (rewrite <- app_assoc; reflexivity).
+  apply IH. destruct H as [H1 H2]. unfold SIt, conf_of, stored_of in *. rewrite marks_snoc, smarks_snoc.
+  destruct o; cbn in *; try contradiction; try (split; assumption).
+  - destruct ok; [contradiction|]. split; assumption.
+  - destruct stored; [contradiction|]. split; assumption.
+Qed.
+
+Lemma sit_weaken tr w w' : (w' = true -> w = true) -> SIt tr w -> SIt tr w'.
+Proof. intros W [H1 H2]. split; [exact H1|]. intros E. apply H2. apply W. exact E. Qed.
+
+Ltac side P := let W := fresh "W" in intros W; cbn in W |- *; try rewrite P in W; try rewrite P; cbn in W |- *; first [exact W|discriminate W|congruence].
+
+Lemma si_step s tr e : v_conf_srv vr = false -> Inv s tr -> SI s tr -> e <> EConfirm ->
+  (forall b c, e <> EReplace b c) -> SI (fst (step s e)) (tr ++ snd (step s e)).
+Proof.
+  intros VC I H NC NR. unfold SI in *.
+  pose proof (inv_step s tr e I NR) as I'.
+  pose proof (i_ph _ _ I) as PH. unfold phase_inv in PH.
+  assert (KEEP : forall os, Forall neutral os -> forall w', (w' = true -> is_wait (ph s) = true) ->
+                 SIt (tr ++ os) w').
+  { intros os F w' W. eapply sit_weaken; [exact W|]. apply sit_neutral; assumption. }
+  destruct e; cbn [step] in *; try congruence.
+  - (* EAppend *) apply KEEP; [constructor|side I].
+  - (* ERead *)
+    destruct (ph s) eqn:P; cbn [fst snd]; try solve [apply KEEP; [constructor|side P]].
+    destruct (read_line_turn (v_loops vr) B (buf s) (skipn (rpos s) (wfile s))) as [n r].
+    destruct r as [line|b'|b']; cbn [fst snd].
+    + apply KEEP; [constructor|destruct (_ =? rpe); side I].
+    + destruct (recs s); cbn [fst snd]; (apply KEEP; [repeat constructor|side I]).
+    + apply KEEP; [repeat constructor|side I].
+  - (* EWake *)
+    destruct (ph s) eqn:P; cbn [fst snd]; try solve [apply KEEP; [constructor|side P]].
+    destruct (exit_check vr s); cbn [fst snd]; (apply KEEP; [repeat constructor|side I]).
+  - (* ETake *)
+    destruct (ph s) eqn:P; cbn [fst snd]; try solve [apply KEEP; [constructor|side P]].
+    destruct PH as (A1 & A2 & _). destruct H as [H1 _].
+    unfold SIt, conf_of, stored_of in *. rewrite marks_snoc, smarks_snoc. cbn. rewrite smarks_m.
+    split; [exact H1|]. intros _. rewrite A1, <- A2. exact H1.
+  - (* ESetOff *)
+    destruct (ph s) eqn:P; cbn [fst snd]; try solve [apply KEEP; [constructor|side P]].
+    destruct (eof && exit_check vr s); (apply KEEP; [repeat constructor|side I]).
+  - (* EPersist *) apply KEEP; [repeat constructor|side I].
+  - (* EStop *) apply KEEP; [constructor|side I].
+  - (* EExit *)
+    destruct (stopping s); cbn [fst snd]; [|apply KEEP; [constructor|side I]].
+    destruct (ph s) eqn:P; cbn [fst snd].
+    all: apply KEEP; [repeat constructor|side P].
+  - (* ERestart *)
+    destruct (merge_desc (persisted s) (fid s) (length (file s))) as [d k]. cbn [fst snd] in *.
+    pose proof (i_obs _ _ I' tr (ORestart (d_off d)) [] eq_refl) as G. cbn in G. destruct G as [_ G].
+    destruct H as [H1 _]. unfold SIt, conf_of, stored_of in *. rewrite marks_snoc, smarks_snoc. cbn.
+    split; [lia|discriminate].
+  - (* ESync *)
+    destruct (merge_desc (Some (dsc s)) (fid s) (length (file s))) as [d kept] eqn:MD.
+    assert (FRESH : SIt (tr ++ [OFresh (d_off d)]) false).
+    { destruct H as [H1 _]. unfold SIt, conf_of, stored_of in *. rewrite marks_snoc, smarks_snoc. cbn.
+      split; [|discriminate]. pose proof (i_ends _ _ I). pose proof (i_doff _ _ I) as DO.
+      unfold merge_desc in MD. pose proof (i_did _ _ I) as DI. rewrite DI, Nat.eqb_refl in MD.
+      destruct (_ && _) in MD; injection MD as <- _; cbn; unfold conf_of in *; lia. }
+    destruct (negb (d_id (dsc s) =? fid s)); [exact FRESH|].
+    destruct (ph s) eqn:P; cbn [fst snd]; try exact FRESH.
+    all: destruct (kept && attached s); cbn [fst snd]; (apply KEEP; [constructor|side P]).
+  - (* EStopOnEof *) apply KEEP; [constructor|side I].
+  - (* ECollect *)
+    destruct (ph s) eqn:P; cbn [fst snd]; try solve [apply KEEP; [constructor|side P]].
+    destruct w; [| |rewrite VC]; cbn [fst snd]; try solve [apply KEEP; [repeat constructor|side P]].
+    destruct H as [H1 H2]. specialize (H2 eq_refl).
+    replace (tr ++ [OWrite true; OConf true]) with ((tr ++ [OWrite true]) ++ [OConf true]) by (rewrite <- app_assoc; reflexivity).
+    unfold SIt, conf_of, stored_of in *. rewrite !marks_snoc, !smarks_snoc. cbn. rewrite smarks_m.
+    apply Nat.leb_le in H2. rewrite H2. split; [lia|discriminate].
+Qed.
+
+Lemma si_run s tr evs : v_conf_srv vr = false -> Inv s tr -> SI s tr -> no_replace evs -> collector_only evs ->
+  SI (fst (run s evs)) (tr ++ snd (run s evs)).
+Proof.
+  intros VC. revert s tr. induction evs as [|e evs IH]; intros s tr I H NR CO; cbn.
+  - rewrite app_nil_r. exact H.
+  - assert (N1 : forall b c, e <> EReplace b c) by (intros b c E; apply (NR b c); left; exact E).
+    assert (N2 : no_replace evs) by (intros b c F; apply (NR b c); right; exact F).
+    assert (N3 : e <> EConfirm) by (intros E; apply CO; left; exact E).
+    assert (N4 : collector_only evs) by (intros F; apply CO; right; exact F).
+    pose proof (inv_step s tr e I N1) as I1. pose proof (si_step s tr e VC I H N3 N1) as H1.
+    destruct (step s e) as [s1 o1]. cbn [fst snd] in *.
+    pose proof (IH s1 (tr ++ o1) I1 H1 N2 N4) as H2. destruct (run s1 evs) as [s2 o2]. cbn [fst snd] in *.
+    rewrite app_assoc. exact H2.
+Qed.
+
+(* with collector.Run as the consumer, every byte below the last confirmed offset - hence below every offset
+   ever saved - has been stored by a Write that succeeded *)
+Lemma stored_prefix evs : v_conf_srv vr = false -> no_replace evs -> collector_only evs ->
+  conf_of (trc evs) <= stored_of (trc evs) /\ pers_of (trc evs) <= stored_of (trc evs).
+Proof.
+  intros VC NR CO.
+  assert (H0 : SI s0 []).
+  { unfold SI, SIt. cbn. split; [lia|]. destruct S0 as (P & _). rewrite P. discriminate. }
+  pose proof (si_run s0 [] evs VC (inv_start s0 S0) H0 NR CO) as [H1 _]. cbn in H1. fold (trc evs) in H1.
+  pose proof (inv_all evs NR) as I. destruct I. destruct i_ends0. split; [exact H1|lia].
 Qed.
 
 End From.
@@ -552,7 +820,7 @@ Proof.
 Qed.
 
 (* the unit the correspondence check schedules (run_reads) is a run of single ReadSlice turns *)
-Lemma run_reads_is_run fuel s : exists n, run_reads lp B rpe fuel s = run s (repeat ERead n).
+Lemma run_reads_is_run fuel s : exists n, run_reads vr B rpe fuel s = run s (repeat ERead n).
 Proof.
   revert s. induction fuel as [|f IH]; intros s; [exists 0; reflexivity|].
   cbn [run_reads]. destruct (ph s) eqn:P; try (exists 0; reflexivity).
